@@ -12,7 +12,7 @@ EXPLANATION = (
     'read and the paths it applies to, and the set of such tests must collectively dominate the registration write (graph cut on the '
     'CFG); every object built by the importer flows to add_state / add_transition; validate() runs unless explicitly disabled and calls '
     'both sub-validators; every explicit raise reachable from import_from_yaml raises StatechartError (two argument-misuse TypeErrors '
-    'listed), schema errors and builder errors are converted; SCHEMA admits no wildcard key, requires name and root state and uses '
+    'listed), schema errors and builder errors are converted, the parsed document is not operated on before the schema has seen it; SCHEMA admits no wildcard key, requires name and root state and uses '
     'closed enumerations. Decides that each rule has a rejecting test on every applicable path; malformed YAML is out of scope.')
 
 
@@ -129,8 +129,12 @@ def rules_registration(run, P='C12', rid='.1'):
     wr = {(f, k) for c, f, k, n in prog.direct_writes(fi) if c == 'Statechart'}
     run.check({('_states', 'item-assign'), ('_parent', 'item-assign'), ('_children', 'item-assign'), ('_children', 'mut-elem:append')} <= wr, r, fi.short,
               'registration updates _states, _parent, _children and the parent\'s children list', 'writes are %s' % sorted(wr), regs[0])
+    from .c16 import derived_caches
+    memo_fields = set(derived_caches(prog))
     for c, f, k, n in prog.direct_writes(fi):
         if c == 'Statechart':
+            if f in memo_fields and k in ('mut:clear', 'mut:pop') or (f in memo_fields and k == 'assign' and isinstance(getattr(n, 'value', None), (ast.Dict, ast.Constant))):
+                continue      # forgetting memoised query results is not observable: it may happen before the tests (completeness of invalidation: C16.7)
             run.check(n is regs[0] or cfg.dominates(W, cfg.node_of(n)), r, fi.short, 'write %s %s after all tests' % (f, k), 'a structure is written before the tests', n)
 
     # add_transition
@@ -360,10 +364,34 @@ def check(run):
     r = run.rule('C12.3', 'error discipline: every explicit raise reachable from import_from_yaml raises StatechartError (listed: two argument-misuse TypeErrors); schema '
                           'and builder errors are converted')
     reach = prog.reachable([yi])
+    # functions entered only through call sites whose exceptions are converted (try: <call> except Exception: raise StatechartError(..)): whatever they raise
+    # reaches the caller of import_from_yaml as a StatechartError
+    def converting(site):
+        t_ = q.enclosing(site, ast.Try)
+        while t_ is not None:
+            if any(q.in_node(site, b_) for b_ in t_.body) and any(
+                    h.type is not None and q.unparse(h.type) in ('Exception', 'BaseException') and any(
+                        isinstance(x_, ast.Raise) and q.raised_class(x_) == 'StatechartError' for st_ in h.body for x_ in ast.walk(st_)) for h in t_.handlers):
+                return True
+            t_ = q.enclosing(t_, ast.Try)
+        return False
+    prog.build_callgraph()
+    direct = {yi.qual}
+    work_ = [yi]
+    while work_:
+        f_ = work_.pop()
+        for t_, site in prog.callgraph.get(f_.qual, []):
+            if t_.qual in direct or converting(site):
+                continue
+            direct.add(t_.qual)
+            work_.append(t_)
     n = 0
     for qual, (f, _) in reach.items():
         for x in q.raises_in(f.node):
             n += 1
+            if qual not in direct and q.raised_class(x) is not None:
+                run.ok(r, f.short, 'raise %s, converted to StatechartError by the importer (reached through converting call sites only)' % q.raised_class(x), x)
+                continue
             k = q.raised_class(x)
             if k is None:
                 h = q.enclosing(x, ast.ExceptHandler)
@@ -385,14 +413,57 @@ def check(run):
                 run.check(_always_leaves(h.body) == 'Raise', r, f.short, 'handler `except %s` ends by raising' % (q.unparse(h.type) if h.type is not None else ''),
                           'an exception caught while importing is swallowed', h)
     run.floor(nh, 2, r, 'exception handlers on the import path')
-    sv = [c for c in q.calls(Y) if isinstance(c.func, ast.Attribute) and c.func.attr == 'validate' and 'Schema' in q.unparse(c.func.value)]
+    sv = [c for c in q.calls(Y) if isinstance(c.func, ast.Attribute) and c.func.attr == 'validate' and any('Schema' in q.unparse(o_) for o_ in [c.func.value] + q.local_origin(Y, c.func.value))]
     run.check(len(sv) == 1 and _own_atoms(sv[0], ('text', 'filepath')) == [('falsy', 'ignore_schema', '')], r, yi.short, 'schema validation runs unless ignore_schema', 'differs', Y)
+    # nothing operates on the freshly loaded document before the schema has seen it: it may be None, a number, a list .. and `in`, subscripts,
+    # method calls or iteration on those raise TypeError / AttributeError instead of StatechartError
+    loads = [st for st in q.walk(Y, False) if isinstance(st, ast.Assign) and isinstance(st.targets[0], ast.Name) and isinstance(strip_cast(st.value), ast.Call)
+             and isinstance(strip_cast(st.value).func, ast.Attribute) and strip_cast(st.value).func.attr in ('load', 'safe_load', 'load_all')]
+    run.check(len(loads) == 1, r, yi.short, 'one place parses the YAML text', 'found %d' % len(loads), Y)
+    for ld in loads:
+        dv = ld.targets[0].id
+        nuse = 0
+        for n_ in q.walk(Y):
+            if not (isinstance(n_, ast.Name) and n_.id == dv and isinstance(n_.ctx, ast.Load)):
+                continue
+            in_handler = any(q.enclosing(c_, ast.Try) is not None and any(q.in_node(n_, h_) for h_ in q.enclosing(c_, ast.Try).handlers) for c_ in sv)
+            if not in_handler and any(q.strictly_before(Y, q.enclosing_stmt(c_), n_) and q.enclosing_stmt(c_) is not q.enclosing_stmt(n_) for c_ in sv):
+                continue       # the schema validator has run (and coerced the value) on every path to this use
+            # (in a handler of the validation itself the document is the one the schema has just rejected)
+            nuse += 1
+            par = getattr(n_, '_parent', None)
+            as_arg = isinstance(par, ast.Call) and n_ in par.args and (par in sv or par in ic)
+            harmless = (isinstance(par, ast.Call) and isinstance(par.func, ast.Name) and par.func.id == 'isinstance' and par.args and par.args[0] is n_) or \
+                (isinstance(par, ast.Compare) and all(isinstance(o_, (ast.Is, ast.IsNot)) for o_ in par.ops))
+            # .. or the use is reached only once the document is known to be a mapping
+            def is_map_test(e):
+                e = strip_cast(e)
+                return isinstance(e, ast.Call) and isinstance(e.func, ast.Name) and e.func.id == 'isinstance' and len(e.args) == 2 and q.unparse(e.args[0]) == dv and \
+                    q.unparse(e.args[1]).split('.')[-1] in ('dict', 'Mapping', 'MutableMapping', 'OrderedDict', 'CommentedMap')
+            up, child = par, n_
+            while up is not None and not isinstance(up, ast.stmt):
+                if isinstance(up, ast.BoolOp) and isinstance(up.op, ast.And) and child in up.values and any(is_map_test(v_) for v_ in up.values[:up.values.index(child)]):
+                    harmless = True
+                if isinstance(up, ast.IfExp) and child is up.body and is_map_test(up.test):
+                    harmless = True
+                up, child = getattr(up, '_parent', None), up
+            st_ = q.enclosing_stmt(n_)
+            if any(op_ == 'truthy' and is_map_test(ast.parse(l_, mode='eval').body) for op_, l_, r_ in guard_atoms(st_) if l_.startswith('isinstance(')):
+                harmless = True
+            if isinstance(par, (ast.Dict, ast.List, ast.Tuple)):
+                harmless = True       # merely stored in a new container
+            run.check(as_arg or harmless, r, yi.short, 'raw document only handed to the validator / builder',
+                      'the unvalidated document is used in `%s`: a document that is not a mapping makes this raise TypeError / AttributeError instead of StatechartError'
+                      % q.unparse(q.enclosing_stmt(n_) if not isinstance(q.enclosing_stmt(n_), (ast.If, ast.For, ast.While)) else getattr(q.enclosing_stmt(n_), 'test', getattr(q.enclosing_stmt(n_), 'iter', None)))[:60], n_)
+        run.floor(nuse, 1, r, 'uses of the raw document')
     for c in sv:
         t = q.enclosing(c, ast.Try)
         good = t is not None and any(h.type is not None and 'SchemaError' in q.unparse(h.type) and any(isinstance(x, ast.Raise) and q.raised_class(x) == 'StatechartError'
                                                                                                       for st in h.body for x in ast.walk(st)) for h in t.handlers)
         run.check(good, r, yi.short, 'SchemaError converted to StatechartError', 'schema errors escape as SchemaError', c)
         inner = c.func.value
+        if isinstance(inner, ast.Name) and len(q.local_origin(Y, inner)) == 1:
+            inner = strip_cast(q.local_origin(Y, inner)[0])
         run.check(isinstance(inner, ast.Call) and inner.args and q.unparse(inner.args[0]) == 'SCHEMA.statechart' and not inner.keywords, r, yi.short,
                   'validated against SCHEMA.statechart, extra keys not ignored', 'schema object is %s' % q.unparse(inner)[:60], c)
         a0 = ic[0].args[0] if ic and ic[0].args else None
